@@ -17,6 +17,7 @@ import (
 	"math"
 	"math/rand"
 	"sort"
+	"strings"
 	"sync/atomic"
 
 	"github.com/bradenaw/juniper/iterator"
@@ -784,6 +785,29 @@ func sameErr(a, b error) (same bool) {
 	return a == b
 }
 
+// checkDeepStack: the stack attached by WithStack is the whole call stack, however deep.
+func checkDeepStack() {
+	base := errors.New("base")
+	for _, depth := range []int{1, 30, 63, 64, 65, 100, 200} {
+		atomic.AddInt64(&cases, 1)
+		err := deepStackOuterMarker(depth, base)
+		if msg := err.Error(); !strings.Contains(msg, "deepStackOuterMarker") || !strings.Contains(msg, "deepStackInner") {
+			fail("xerrors/WithStack-Error", "WithStack called %d frames below deepStackOuterMarker: the outer caller is missing from Error() (%d bytes)", depth, len(msg))
+		}
+	}
+}
+
+//go:noinline
+func deepStackOuterMarker(depth int, err error) error { return deepStackInner(depth, err) }
+
+//go:noinline
+func deepStackInner(depth int, err error) error {
+	if depth <= 0 {
+		return xerrors.WithStack(err)
+	}
+	return deepStackInner(depth-1, err)
+}
+
 func checkXerrors() {
 	base := errors.New("base")
 	if xerrors.WithStack(nil) != nil {
@@ -911,6 +935,22 @@ func checkXrandStructure(maxN int, seeds int) {
 				}
 				if pp := try(func() { g2 = xrand.RSampleSlice(r, items, k) }); pp != nil || len(g2) != want || !distinctIn(g2, n) {
 					fail("xrand/SampleSlice", "RSampleSlice(seed %d, n=%d, k=%d) = %v (panic %v)", seed, n, k, g2, pp)
+				}
+				// the input is only read, and the sample is the caller's own slice
+				for i, x := range items {
+					if x != i {
+						fail("xrand/SampleSlice", "RSampleSlice(seed %d, n=%d, k=%d) reordered its input: %v", seed, n, k, items)
+						items[i] = i
+					}
+				}
+				if len(g2) > 0 && n > 0 {
+					g2[0] = -7
+					for i, x := range items {
+						if x != i {
+							fail("xrand/SampleSlice", "the result of RSampleSlice(n=%d, k=%d) shares its backing array with the input", n, k)
+							items[i] = i
+						}
+					}
 				}
 				if pp := try(func() { g3 = xrand.RSampleIterator(r, iterator.Slice(items), k) }); pp != nil || len(g3) != want || !distinctIn(g3, n) {
 					fail("xrand/SampleIterator", "RSampleIterator(seed %d, n=%d, k=%d) = %v (panic %v)", seed, n, k, g3, pp)
@@ -1230,10 +1270,19 @@ func main() {
 	}
 	checkMerge(nil, [3]int{0, 1, 2})
 	checkMerge([][]int{{}}, [3]int{0, 1, 2})
-	checkOrderedLess()
-	checkXmaps()
-	checkXmath()
-	checkXerrors()
+	guardCheck := func(name string, f func()) {
+		defer func() {
+			if p := recover(); p != nil {
+				fail(name+"/panic", "%s panicked: %v", name, p)
+			}
+		}()
+		f()
+	}
+	guardCheck("xsort/OrderedLess", checkOrderedLess)
+	guardCheck("xmaps", checkXmaps)
+	guardCheck("xmath", checkXmath)
+	guardCheck("xerrors", checkXerrors)
+	guardCheck("xerrors/deep-stack", checkDeepStack)
 	checkXrandStructure(8, seeds)
 	checkXrandHuge(seeds / 4)
 	table := checkXrandUniform(run.Quick())
